@@ -205,7 +205,11 @@ def proj_stmt(st, src, stub):
       if st.level:
         raise NotExplorable("relative import")
       return ("Import", True, _path(st.module.split(".")), tuple(Nm(a.name) for a in st.names), (), 0)
-    raise NotExplorable("plain import statement")
+    # `import a.b`: only its position matters to the model (AddImportsVisitor's import block); a source
+    # `import typing` would make libcst qualify typing names instead of importing them (not modelled)
+    if not stub and any(a.name.split(".")[0] == "typing" for a in st.names):
+      raise NotExplorable("source has `import typing`")
+    return ("Import", False, _path(st.names[0].name.split(".")), (), (), Op(_dump(st)))
   if isinstance(st, ast.Expr) and isinstance(st.value, ast.Constant) and isinstance(st.value.value, (str, bytes)):
     return ("Doc", Op(_dump(st.value)))
   if any(isinstance(getattr(st, f, None), list) and getattr(st, f) and isinstance(getattr(st, f)[0], (ast.stmt, ast.excepthandler, ast.match_case))
